@@ -54,4 +54,34 @@ Proof.
   replace (a_run a') with (a_run a + (a_run a' - a_run a)) by lia. rewrite seq_app, firstn_app, seq_length, Nat.sub_diag.
   cbn [firstn]. rewrite app_nil_r. pose proof (firstn_all (seq 0 (a_run a))) as FA. rewrite seq_length in FA. now rewrite FA.
 Qed.
+
+(* the aggregate is determined by the number of runs performed, whatever kind of limit stopped the loop *)
+Theorem same_runs_same_aggregate fuel fuel' mr mf mr' mf' a a' :
+  limits_ok mr mf -> limits_ok mr' mf' ->
+  rloop fuel mr mf run_i acc0 = Done a -> rloop fuel' mr' mf' run_i acc0 = Done a' ->
+  a_run a = a_run a' -> a = a'.
+Proof.
+  intros L L' H H' E.
+  destruct (stop_exact _ _ _ _ _ L H) as (_ & Hs & _).
+  destruct (stop_exact _ _ _ _ _ L' H') as (_ & Hs' & _).
+  rewrite E in Hs. rewrite Hs in Hs'. now injection Hs'.
+Qed.
+
+(* cross-limit consistency: a run that stopped after N runs (by whichever limit, in particular by max_failures
+   alone) is reproduced by max_runs = N, alone or together with any max_failures at least as large *)
+Theorem cross_limit fuel fuel' mr mf mf' a a' :
+  limits_ok mr mf -> limits_ok (Some (a_run a)) mf' -> le_opt mf mf' ->
+  rloop fuel mr mf run_i acc0 = Done a ->
+  rloop fuel' (Some (a_run a)) mf' run_i acc0 = Done a' -> a' = a.
+Proof.
+  intros L L' Hf H H'.
+  destruct (stop_exact _ _ _ _ _ L H) as (_ & _ & _ & _ & Hall).
+  destruct (stop_exact _ _ _ _ _ L' H') as (Hk' & _ & _ & Hstop' & Hall').
+  symmetry. apply (same_runs_same_aggregate _ _ _ _ _ _ _ _ L L' H H').
+  destruct (Nat.lt_trichotomy (a_run a') (a_run a)) as [Hlt|[E|Hgt]]; [exfalso| now symmetry |exfalso].
+  - destruct Hstop' as [E|E]; [injection E as E; lia|].
+    destruct (Hall _ Hlt) as (_ & _ & G). unfold guard, lt_opt in G. apply andb_true_iff in G. destruct G as [_ G2].
+    rewrite E in Hf. destruct mf as [x|]; cbn in Hf; [|contradiction]. apply Nat.ltb_lt in G2. lia.
+  - destruct (Hall' _ Hgt) as (N & _). now apply N.
+Qed.
 End Seeded.
